@@ -41,6 +41,26 @@ SELFTEST = [
     {"mutation": "heartbeat excess pruning: to_prune bookkeeping removed", "caught_by": "cover/heartbeat: every pruned peer is recorded in to_prune"},
 ]
 
+# one-edit source variants for the thorough-tier sensitivity self-test (vrules/selftest.py); each must be reported
+MUTANTS = [
+    {"name": 'JoinedMesh clears the flag', "file": 'protocols/gossipsub/src/handler.rs',
+     "find": '                HandlerIn::JoinedMesh => {\n                    handler.in_mesh = true;',
+     "replace": '                HandlerIn::JoinedMesh => {\n                    handler.in_mesh = false;',
+     "expect": 'handler/JoinedMesh sets in_mesh = true', "why": 'mesh connections are never kept alive'},
+    {"name": 'per-topic notification after a batched mesh update (F5)', "file": 'protocols/gossipsub/src/behaviour.rs',
+     "find": '                topics.iter().collect(),\n',
+     "replace": '                topics.iter().take(1).collect(),\n',
+     "expect": 'batch/send_graft_prune', "why": 'only the first grafted topic is excluded, so a peer grafted into 2 topics gets no JoinedMesh'},
+    {"name": 'peer_added_to_mesh exclusion polarity', "file": 'protocols/gossipsub/src/behaviour.rs',
+     "find": '            if !new_topics.contains(&topic)\n',
+     "replace": '            if new_topics.contains(&topic)\n',
+     "expect": 'notify/peer_added_to_mesh: silent only', "why": 'first mesh membership is not announced'},
+    {"name": 'excess pruning forgets the bookkeeping', "file": 'protocols/gossipsub/src/behaviour.rs',
+     "find": '                    peers.remove(&peer);\n                    let current_topic = to_prune.entry(peer).or_insert_with(Vec::new);\n                    current_topic.push(topic_hash.clone());\n',
+     "replace": '                    peers.remove(&peer);\n',
+     "expect": 'heartbeat: every pruned peer is recorded in to_prune', "why": 'peer leaves its last mesh without LeftMesh / PRUNE'},
+]
+
 
 def _loc(b):
     return "%s:%d" % (b.file, b.line)
@@ -65,6 +85,15 @@ def _mentions(body, variant):
                     strip_generics(st["r"].get("adt", "")).endswith("handler::HandlerIn") and st["r"].get("variant") == variant:
                 n += 1
     return n
+
+
+WHOLE = re.compile(r"(Iterator::(collect|copied|cloned|by_ref|next)|IntoIterator>::into_iter|slice::iter|(Vec|BTreeSet|HashSet)::(iter|as_slice|clone)|"
+                   r"Deref>::deref|Clone>::clone|Iterator>::next|AsRef>::as_ref)$")
+
+
+def _whole_list(e):
+    """the expression passes a collection on unabridged: only element-preserving adaptors (no take/skip/filter/first/..)"""
+    return all(WHOLE.search(strip_generics(c[1])) for c in mir.walk(e) if c[0] == "call")
 
 
 def check(ctx):
@@ -274,7 +303,7 @@ def check(ctx):
         for c in cs:
             ce = hs.site_expr(c)
             nt = gs.expand(hs, ce[2][1])
-            whole = gs.vec_elems(hs, ce[2][1]) is None and any(y[0] == "local" and y[1] in accs for y in mir.walk(nt))
+            whole = gs.vec_elems(hs, ce[2][1]) is None and any(y[0] == "local" and y[1] in accs for y in mir.walk(nt)) and _whole_list(nt)
             ctx.ob("batch", "handle_received_subscriptions: new_topics covers every topic whose mesh was updated before the call", whole, c.loc(), "new_topics = %s" % render(nt)[:160])
             ctx.ob("cover", "handle_received_subscriptions: notification names the subscribing peer", render(ce[2][0]) == render(me[2][1]), c.loc(), render(ce[2][0]))
             # reached after the loop on every path with a non-empty list
@@ -404,7 +433,7 @@ def check(ctx):
             whole = th is None or bool(local_ins)
             why = "new_topics = vec![%s], the element of the per-topic loop, although the meshes of all of the peer's topics were already updated by heartbeat: each call sees the peer in the other new meshes and JoinedMesh is never sent" % render(el[0])[-60:]
         else:
-            whole = render(nt).count("@Some.0.1") >= 1 and gs.next_call_bb(nt) == peer_head
+            whole = render(nt).count("@Some.0.1") >= 1 and gs.next_call_bb(nt) == peer_head and _whole_list(nt)
             why = "new_topics = %s" % render(nt)[:160]
         ctx.ob("batch", "send_graft_prune: new_topics covers every topic whose mesh was updated before the call", whole, c.loc(), why)
         ctx.ob("cover", "send_graft_prune: exactly one peer_added_to_mesh per grafted peer", got == (1, 1) if el is None else got is not None and got[0] >= 0, c.loc(), "per to_graft entry: %s" % (got,))
